@@ -142,6 +142,26 @@ fn gen_case(rng: &mut Rng, nrec: usize, allow_arrays: bool) -> Case {
         else if Some(j) == key_slot && small_keys { Cell::Num(rng.below(12)) }
         else { Cell::Num(gen_num(rng, *ty)) }
     }).collect()).collect();
+    let mut t: Vec<Vec<Cell>> = t;
+    // structured key columns (file order matters to any index built over it): consecutive, sorted with duplicates and
+    // gaps, a duplicate that exactly compensates a gap (first..last spans as many values as there are records), descending
+    if let Some(slot) = key_slot {
+        let mode = rng.below(8);
+        let base = rng.below(40);
+        let n = t.len();
+        let col: Option<Vec<u64>> = match mode {
+            2 => Some((0..n as u64).map(|i| base + i).collect()),
+            3 => { let mut v = vec![]; let mut cur = base; for _ in 0..n { v.push(cur); cur += rng.below(3); } Some(v) }
+            4 | 5 if n >= 3 => {
+                let mut v: Vec<u64> = (0..n as u64).map(|i| base + i).collect();
+                for _ in 0..(1 + rng.below(2)) { let i = 1 + rng.below(n as u64 - 2) as usize; v[i] = v[i - 1]; }
+                Some(v)
+            }
+            6 => Some((0..n as u64).rev().map(|i| base + i).collect()),
+            _ => None,
+        };
+        if let Some(col) = col { for (row, v) in t.iter_mut().zip(col) { row[slot] = Cell::Num(v); } }
+    }
     Case { s, key, t }
 }
 
@@ -247,6 +267,10 @@ fn run_case(ctx: &mut Ctx, c: &Case, model_ok: bool) {
         let keys: Vec<u32> = c.t.iter().map(|r| if let Cell::Num(v) = r[slot] { v as u32 } else { 0 }).collect();
         let mut probe: Vec<u32> = keys.iter().copied().take(50).collect();
         probe.extend([0, 1, 5, 11, 12, u32::MAX, 0x8000_0000]);
+        // every value between the smallest and largest key (absent ones inside the range included), and one past each end
+        if let (Some(&lo), Some(&hi)) = (keys.iter().min(), keys.iter().max()) {
+            for v in lo.saturating_sub(1)..=hi.saturating_add(1).min(lo.saturating_add(80)) { if !probe.contains(&v) { probe.push(v); } }
+        }
         let mut sorted = rs2.clone();
         let sorted_ok = sorted.create_sorted_key_map().is_ok();
         let dup = { let mut k2 = keys.clone(); k2.sort(); k2.windows(2).any(|w| w[0] == w[1]) };
